@@ -109,6 +109,8 @@ struct Rx
 	bool done = false; error_code ec; std::size_t n = 0;
 };
 
+struct Poke { std::uint64_t tag; ip::address addr; int port; };
+
 struct UdpProbe { std::uint64_t tag; ip::address addr; int port; int holder; std::vector<int> receivers; };
 
 struct World
@@ -135,6 +137,8 @@ struct World
 	std::vector<std::unique_ptr<ip::tcp::acceptor>> sinks;
 	std::vector<Conn> conns;
 	std::vector<std::shared_ptr<Rx>> rxs;
+	std::vector<Poke> pokes;
+	std::unique_ptr<ip::udp::socket> poke_client[2];
 	struct ProbeAccepted { std::unique_ptr<ip::tcp::socket> s; int by; };
 	std::vector<ProbeAccepted> probe_accepted;
 	bool in_settle = false;
@@ -216,6 +220,7 @@ struct World
 		runner->run();
 		runner.reset();
 		probe_accepted.clear();
+		poke_client[0].reset(); poke_client[1].reset();
 		pumps.clear(); sink_pumps.clear();
 		rxs.clear();
 		for (auto& s : slots) { s.tcp.reset(); s.acc.reset(); s.udp.reset(); }
@@ -232,7 +237,10 @@ struct World
 	{
 		p->peer.reset(new ip::tcp::socket(*p->ios));
 		p->armed = true;
-		p->with_ep = !p->with_ep;
+		// acceptors under test always use the overload that reports the peer's endpoint: on_accept() needs it to attribute
+		// the connection, and asking the accepted socket itself (remote_endpoint()) aborts inside the library when the
+		// connection was made to an endpoint the acceptor has given up since
+		p->with_ep = p->slot >= 0 ? true : !p->with_ep;
 		OpPtr rec = ops.make("tcp.accept", 1000 + p->slot);
 		auto h = track1(rec, [this, p](error_code const& ec) { on_accept(p, ec); });
 		if (p->with_ep) API(p->acc->async_accept(*p->peer, p->peer_ep, std::move(h)));
@@ -244,8 +252,8 @@ struct World
 		p->armed = false;
 		if (ec) return;
 		error_code e2;
-		ip::tcp::endpoint rem;
-		API(rem = p->peer->remote_endpoint(e2));
+		ip::tcp::endpoint rem = p->peer_ep;
+		if (!p->with_ep) API(rem = p->peer->remote_endpoint(e2));
 		// who connected?
 		// (a local endpoint can be reused by a later connect: prefer the connect addressed to what this acceptor holds)
 		Conn* c = nullptr;
@@ -603,10 +611,13 @@ struct World
 		}
 	}
 
-	void op_connect(int i, ip::address const& ta, int tp, bool judged)
+	// mode 0: run with accepts armed and judge the outcome; 1: leave the SYN in flight; 2: run WITHOUT accepting (the SYN
+	// reaches the target and waits there)
+	void op_connect(int i, ip::address const& ta, int tp, int mode)
 	{
+		bool const judged = mode == 0;
 		Slot& s = slots[std::size_t(i)];
-		tr(fmt("s%d.connect(%s)%s", i, ap_str(ta, tp).c_str(), judged ? "" : "[deferred]"));
+		tr(fmt("s%d.connect(%s)%s", i, ap_str(ta, tp).c_str(), mode == 0 ? "" : (mode == 1 ? "[in flight]" : "[delivered, not accepted]")));
 		bool const was_open = s.open, was_bound = s.bound;
 		int const id = new_conn(i, false, ta, tp);
 		// implicit open with the target's family, implicit bind to that family's wildcard
@@ -633,7 +644,9 @@ struct World
 		if (s.bound) { c.laddr = s.addr; c.lport = s.port; c.have_local = true; }
 		s.connecting = true; s.conn_id = id;
 		check_all("async_connect");
-		if (failed || !judged) return;
+		if (failed) return;
+		if (mode == 1) return;
+		if (mode == 2) { R().count("connects_left_waiting_at_target"); runner->run(); return; }
 		settle();
 		judge_conn(conns[std::size_t(id)], "connect");
 	}
@@ -653,6 +666,57 @@ struct World
 		c.laddr = le.address(); c.lport = le.port(); c.have_local = !ec && le.port() != 0;
 		settle();
 		judge_conn(conns[std::size_t(id)], "feeding connect");
+	}
+
+	// a datagram is sent to the endpoint UDP slot i holds and is delivered while nobody is receiving: it waits in the socket
+	void op_poke(int i)
+	{
+		Slot& s = slots[std::size_t(i)];
+		tr(fmt("s%d.poke", i));
+		int const f = s.addr.is_v4() ? 0 : 1;
+		error_code ec;
+		if (!poke_client[f])
+		{
+			poke_client[f].reset(new ip::udp::socket(*probe_node().ios));
+			API(poke_client[f]->open(f == 0 ? ip::udp::v4() : ip::udp::v6(), ec));
+			API(poke_client[f]->bind(ip::udp::endpoint(f == 0 ? ip::address(ip::address_v4::any()) : ip::address(ip::address_v6::any()), 0), ec));
+			API(poke_client[f]->non_blocking(true));
+			if (ec) { R().violation("HARNESS", "udp-poke-client", ec.message()); failed = true; return; }
+		}
+		Poke k; k.tag = next_tag++; k.addr = s.addr; k.port = s.port;
+		char b[8]; std::memcpy(b, &k.tag, 8);
+		API(poke_client[f]->send_to(boost::asio::buffer(b, 8), ip::udp::endpoint(s.addr, std::uint16_t(s.port)), 0, ec));
+		if (ec) { R().violation("HARNESS", "udp-poke-send", ec.message()); return; }
+		pokes.push_back(k);
+		R().count("datagrams_left_waiting_in_socket");
+		runner->run();
+	}
+
+	// reads whatever waits in the open UDP sockets: a datagram may only be found in a socket that holds the endpoint it was sent to
+	void drain_udp()
+	{
+		for (std::size_t i = 0; i < slots.size() && !failed; ++i)
+		{
+			Slot& s = slots[i];
+			if (s.kind != K_UDP || !s.exists || !s.open) continue;
+			for (int guard = 0; guard < 64; ++guard)
+			{
+				char buf[64]; ip::udp::endpoint from; error_code ec; std::size_t n = 0;
+				API(n = s.udp->receive_from(boost::asio::buffer(buf, sizeof(buf)), from, 0, ec));
+				if (ec) break;
+				std::uint64_t tag = 0; if (n == 8) std::memcpy(&tag, buf, 8);
+				Poke const* k = nullptr;
+				for (auto const& q : pokes) if (q.tag == tag) k = &q;
+				if (!k) { bad("stale-datagram-delivered", fmt("slot %zu holds a datagram (tag %" PRIx64 ", %zu bytes) nobody sent to it", i, tag, n)); break; }
+				if (!(s.bound && s.addr == k->addr && s.port == k->port))
+				{
+					bad("datagram-reached-socket-not-holding-binding", fmt("a datagram sent to %s was read from UDP slot %zu, which the reference says %s"
+						, ap_str(k->addr, k->port).c_str(), i, s.bound ? ("is bound to " + ap_str(s.addr, s.port)).c_str() : "is not bound"));
+					break;
+				}
+				R().count("waiting_datagrams_read_from_holder");
+			}
+		}
 	}
 
 	void op_sendto(int i)
@@ -785,6 +849,8 @@ struct World
 		for (auto const& k : tcp_free) tcp_probe(k.second.first, k.second.second);
 
 		// ---- UDP: a receive on every open socket under test, one tagged datagram per endpoint
+		drain_udp();
+		if (failed) { ApiGuard g; clients.clear(); return; }
 		rxs.clear();
 		for (std::size_t i = 0; i < slots.size(); ++i)
 		{
@@ -996,6 +1062,8 @@ void random_bind_args(World& w, Slot const& s, ip::address& a, int& port)
 	}
 }
 
+int connect_mode(Rng& rng) { int const r = rng.choose(8); return r < 5 ? 0 : (r < 6 ? 1 : 2); }
+
 bool pick_family(World& w, Slot const& s)
 {
 	Node const& n = w.nodes[std::size_t(s.node)];
@@ -1065,7 +1133,7 @@ void case_random(Args const& a, std::uint64_t c)
 			if (r < 55) w.op_open(i, pick_family(w, s));
 			else if (r < 65 && s.kind == K_TCP && !s.connecting) { // connect on a closed socket: implicit open + implicit bind
 				ip::address ta; int tp;
-				if (pick_target(w, pick_family(w, s), ta, tp)) w.op_connect(i, ta, tp, rng.coin(3, 4));
+				if (pick_target(w, pick_family(w, s), ta, tp)) w.op_connect(i, ta, tp, connect_mode(rng));
 			}
 			else if (r < 72) { ip::address ba; int bp; random_bind_args(w, s, ba, bp); w.op_bind(i, ba, bp); }
 			else if (r < 76 && s.kind == K_ACC) w.op_listen(i);
@@ -1079,7 +1147,7 @@ void case_random(Args const& a, std::uint64_t c)
 			else if (r < 65 && s.kind == K_TCP && !s.connecting && !s.connected)
 			{
 				ip::address ta; int tp;
-				if (pick_target(w, s.v4, ta, tp)) w.op_connect(i, ta, tp, rng.coin(3, 4));
+				if (pick_target(w, s.v4, ta, tp)) w.op_connect(i, ta, tp, connect_mode(rng));
 			}
 			else if (r < 65 && s.kind == K_UDP && s.v4) w.op_sendto(i);
 			else if (r < 70 && s.kind == K_ACC) w.op_listen(i);
@@ -1091,14 +1159,15 @@ void case_random(Args const& a, std::uint64_t c)
 		else
 		{
 			// bound (or accepted): binding again is API misuse and not generated
-			if (r < 14 && s.kind == K_ACC) w.op_listen(i);
+			if (r < 12 && s.kind == K_UDP && s.bound) w.op_poke(i);
+			else if (r < 14 && s.kind == K_ACC) w.op_listen(i);
 			else if (r < 25 && s.kind == K_ACC && s.bound && (s.listening || s.listen_unknown) && int(w.slots.size()) < w.max_slots) w.op_feed(i);
 			else if (r < 25 && s.kind == K_TCP && s.bound && !s.connecting && !s.connected)
 			{
 				// explicitly bound socket connects: to a listener, a free endpoint, or (rarely) the other family
 				bool v4 = s.v4; if (rng.coin(1, 5)) v4 = !v4;
 				ip::address ta; int tp;
-				if (pick_target(w, v4, ta, tp)) w.op_connect(i, ta, tp, rng.coin(3, 4));
+				if (pick_target(w, v4, ta, tp)) w.op_connect(i, ta, tp, connect_mode(rng));
 			}
 			else if (r < 45) w.op_close(i, rng.coin());
 			else if (r < 60) w.op_open(i, pick_family(w, s));
@@ -1154,7 +1223,7 @@ void exh_history(Args const& a, Rng& rng, int steps, std::uint64_t& th_out, Worl
 			case 3:
 				if (!s.exists) w.tr(fmt("s%d.nop", i));
 				else if (s.kind == K_ACC) w.op_listen(i);
-				else if (s.kind == K_TCP) { if (!s.connected && !busy) w.op_connect(i, A, 2001, true); else w.tr(fmt("s%d.nop", i)); }
+				else if (s.kind == K_TCP) { if (!s.connected && !busy) w.op_connect(i, A, 2001, 0); else w.tr(fmt("s%d.nop", i)); }
 				else if (!(s.open && s.bound)) w.op_bind(i, any4, 2001); else w.tr(fmt("s%d.nop", i));
 				break;
 			case 4: if (s.exists) w.op_close(i, st % 2 == 0); else w.tr(fmt("s%d.nop", i)); break;
